@@ -1576,7 +1576,9 @@ pub fn gen_case(rng: &mut Rng, tier: &str, profile: &str, stats: &mut Stats) -> 
         // the request is put on the wire 255 times and then fails
         stats.bump("gen.cases.max-retries");
         let mut ops = vec!["hworld 2 255 20 1000 86400000".to_string()];
-        ops.push(format!("hreq 1 2 {} 1 {}", if rng.chance(1, 2) { "enr" } else { "raw" }, rng.range(1, 4)));
+        // (a contact with a record: a record-less one would put a second, internal request on the
+        // same timer instant 255 times over, and the serving order of simultaneous timers is tokio's)
+        ops.push(format!("hreq 1 2 enr 1 {}", rng.range(1, 4)));
         if rng.chance(1, 2) {
             // (or the handshake is what stays unanswered)
             ops.push("hdel next".into());
